@@ -42,8 +42,8 @@ End Speckle.
 Theorem traced_speckle_uniform c : c <> 0 -> sc_loss c c c c c c c c c = 0 /\ sc_0_0 c c c c c c c c c = 0.
 Proof.
   intros Hc. rewrite sc_loss_model, sc_0_0_model. split.
-  - apply speckle_loss_uniform. repeat constructor; try discriminate; exists c; repeat constructor.
-  - apply (speckle_uniform c); [discriminate|repeat constructor].
+  - apply speckle_loss_uniform. repeat constructor; try discriminate; exists c; (split; [exact Hc|repeat constructor]).
+  - apply (speckle_uniform c); [discriminate|exact Hc|repeat constructor].
 Qed.
 
 (* phase gradient: default Laplacian / 8 with zero padding *)
